@@ -1215,6 +1215,10 @@ def rand_c14(seed, tier, cases=None):
             units.append([t << 1 | layer >> 5, (layer & 31) << 3 | tid] + [rng.randint(1, 255) for _ in range(n - 2)])
         out.append(dict(fam="C14", kind="payload", valid=True, mtu=mtu, donl=rng.random() < 0.3, skipagg=rng.random() < 0.4,
                         calls=[dict(units=units, scs=[rng.choice([3, 4]) for _ in units])], **{"class": "rand_payload"}))
+    # SkipAggregation is a plain field: the application flips it between calls
+    for order in ((False, True, False), (True, False, True)):
+        calls = [dict(units=[unit(32, 6), unit(33, 5), unit(19, 20 + j)], scs=[4, 4, 4], skipagg_now=m) for j, m in enumerate(order)]
+        out.append(dict(fam="C14", kind="payload", valid=True, mtu=100, donl=False, skipagg=order[0], calls=calls, **{"class": "skipagg_option_flipped"}))
     # one unit of about 17 MB (beyond 2^24 bytes) through payloader and receiver (lengths and equality facts only)
     for mtu in (65535, 1200):
         out.append(dict(fam="C14", kind="huge", huge=17000000, mtu=mtu, valid=True, **{"class": "huge_unit_17MB"}))
